@@ -237,19 +237,26 @@ def r2_flush(ctx):
         ctx.bad("C16.R2", wt, wt.node, "_writeTrace no longer writes every "
                 "buffered row in order", text_="_writeTrace rows")
     # (e) flush test after the append
-    fl = [c for c in pat.calls(au, name="cls._writeTrace")]
+    cls_ = au.params[0]
+    fl = [c for c in pat.calls(au, name="%s._writeTrace" % cls_)]
+    fb = None
+    for n in au.own_nodes():
+        if isinstance(n, ast.Assign) and isinstance(n.targets[0], ast.Tuple) and \
+                text(n.value).replace(" ", "").startswith("%s.traces[" % cls_):
+            fb = text(n.targets[0].elts[0])
     ok = False
-    if len(fl) == 1:
-        gs = [(text(t).replace(" ", ""), pol) for t, pol in
-              atomic_guards(enclosing_stmt(fl[0]))]
+    if len(fl) == 1 and fb:
+        gs = set()
+        for t, pol in atomic_guards(enclosing_stmt(fl[0])):
+            gs.add(pat.catom(ctx, au, t, pol, False))
         app = [c for c in pat.calls(au, attr="append")
-               if text(c.func.value) == "file_trace"]
+               if text(c.func.value) == fb]
         g = cfg_of(au, assert_edges=False)
-        ok = ("len(file_trace)==cls.num_cached_uses", True) in gs and \
-            ("file_traceisnotNone", True) in gs and app and \
+        full = pat.A("==", "len(%s)" % fb, "%s.num_cached_uses" % cls_) in gs or \
+            pat.A("<=", "%s.num_cached_uses" % cls_, "len(%s)" % fb) in gs
+        ok = full and pat.A("is not", fb, "None") in gs and bool(app) and \
             g.can_reach(enclosing_stmt(app[0]), enclosing_stmt(fl[0])) and \
             not g.can_reach(enclosing_stmt(fl[0]), enclosing_stmt(app[0]))
-        ok = ok or (("cls.num_cached_uses<=len(file_trace)", True) in gs and bool(app))
     if ok:
         ctx.ok("C16.R2", au, fl[0], "(e) flush when the buffer reaches "
                "num_cached_uses, after the append")
